@@ -110,12 +110,102 @@ func init() {
 		c19Reexec()
 		c19Pool(c, n)
 	}
+	replayers["C19W"] = func(c *ctx, in []string) {
+		var n int
+		fmt.Sscan(in[1], &n)
+		c19Reexec()
+		c19W(c, in[0], n)
+	}
+	replayers["C19G"] = func(c *ctx, in []string) { c19Reexec(); c19G(c) }
+	wrap("C17", func(c *ctx) {
+		for _, n := range []int{128, 1024, 65536, 100} {
+			c19W(c, "server", n)
+			c19W(c, "client", n)
+		}
+		c19G(c)
+	})
 	wrap("C19", func(c *ctx) {
+		for _, n := range []int{128, 256, 1024, 4096, 65536, 100, 1000} {
+			c19W(c, "server", n)
+			c19W(c, "client", n)
+		}
+		c19G(c)
 		c19Pool(c, 4)
 		c19TLS(c, 3, false)
 		c19TLS(c, 8, true)
 		if c.thor {
 			c19TLS(c, 32, true)
+		}
+	})
+	// C05: frames announcing a 64-bit length far beyond MaxFrameSize (also >= 2^32, where only the low 32 bits
+	// look small) after a valid prefix; C04: masking keys that are all zero / almost zero
+	replayers["RDL"] = func(c *ctx, in []string) {
+		var ln int64
+		fmt.Sscan(in[3], &ln)
+		runRDL(c, parseCfg(in[0]), parseFrames(in[1]), parseFrames(in[2])[0], ln, unhx(in[4]), in[5], in[6])
+	}
+	wrap("C05", func(c *ctx) {
+		lens := []int64{1 << 32, 1<<32 + 5, 1<<40 + 100, 1<<62 + 7, 1<<63 - 1, 1<<32 - 1, 1 << 31, 70000, 1 << 16, 1<<33 + 65536}
+		i := 0
+		for _, side := range []byte{1, 2} {
+			for _, max := range []int64{65536, 10, 1 << 20} {
+				for _, ln := range lens {
+					for _, pre := range [][]aframe{nil, {{2, false, 2}}, {{1, true, 3}, {9, true, 2}}, {{2, false, 1}, {9, true, 0}}} {
+						i++
+						if !c.thor && i%2 == 0 {
+							continue
+						}
+						fs := c.concrete(side, pre)
+						op := byte(2)
+						if len(pre) > 0 && !pre[len(pre)-1].fin || (len(pre) == 2 && !pre[0].fin) {
+							op = 0
+						}
+						h := c.mkFrame(side, i%3 != 0, op, 0)
+						runRDL(c, rcfg{state: side, cb: 1, max: max}, fs, h, ln, c.payload(7), chunkSpecs[i%len(chunkSpecs)], bufSpecs[i%len(bufSpecs)])
+					}
+				}
+			}
+		}
+	})
+	// C18: the extension slice handed to SetExtensions stays the caller's: Reset / PutWriter must not wipe it, and
+	// the reset writer configured from it again behaves like a fresh one
+	replayers["W18X"] = func(c *ctx, in []string) {
+		var side, n int
+		fmt.Sscan(in[0], &side)
+		fmt.Sscan(in[2], &n)
+		w18x(c, byte(side), in[1], n)
+	}
+	wrap("C18", func(c *ctx) {
+		for _, side := range []byte{1 | 4, 2 | 4} {
+			for _, how := range []string{"reset", "pool"} {
+				for _, n := range []int{0, 5, 300} {
+					w18x(c, side, how, n)
+				}
+			}
+		}
+	})
+	// C07: a validating reader reused through Reset judges the new stream on its own
+	wrap("C07", func(c *ctx) { u8rsPending(c) })
+	wrap("C04", func(c *ctx) {
+		n := 12
+		if c.thor {
+			n = 200
+		}
+		for i := 0; i < n; i++ {
+			fs := c.randValidStream(1, 1+c.rng.Intn(6), 200)
+			for k := range fs {
+				switch (i + k) % 3 {
+				case 0:
+					fs[k].key = [4]byte{}
+				case 1:
+					fs[k].key = [4]byte{0, 0, 0, byte(1 + k)}
+				}
+			}
+			w := wireOf(fs)
+			cfg := rcfg{state: 1, cb: 1, chk: i%2 == 0}
+			runRD(c, "RD", cfg, fs, "-", c.randChunkSpec(len(w)), "eof", bufSpecs[i%len(bufSpecs)])
+			runRM(c, "RM", 1, fs, "-", c.randChunkSpec(len(w)), "eof")
+			runRX(c, "RX", 1, []string{"data", "text", "binary"}[i%3], fs, "-", c.randChunkSpec(len(w)), "eof")
 		}
 	})
 	// C13 (send side): a message split into more than 256 frames
@@ -125,6 +215,13 @@ func init() {
 			for _, op := range []int{9, 10, 8, 2} {
 				runWH(c, "WHX", wcfg{"s125", side, 1, "1"}, fmt.Sprintf("w20/1,fl,ro%d,w5/2,fl,ro1,w300/3,fl", op), "-")
 				runWH(c, "WHX", wcfg{"s5", side, 2, "1"}, fmt.Sprintf("w3/1,w9/4,ro%d,w2/2,fl", op), "-")
+			}
+		}
+		// one writer living for several messages with SetExtensions called again before each of them
+		for _, side := range []byte{1 | 4, 2 | 4} {
+			for _, ctor := range []string{"s125", "s5", "d0"} {
+				runWH(c, "WHX", wcfg{ctor, side, 1, "-"}, "x1,w3/1,fl,x1,w4/2,fl,x0,w2/3,fl,x1,w2/1,ff,w9/4,fl", "-")
+				runWH(c, "WHX", wcfg{ctor, side, 2, "1"}, "w3/1,fl,x1,w4/2,fl,ro1,x1,w20/3,fl", "-")
 			}
 		}
 		var ops []string
@@ -226,6 +323,23 @@ func init() {
 				mid := c.mkFrame(side, false, 0, n)
 				fz(c, e, wireOf([]sframe{first, mid, c.mkFrame(side, true, 0, 1)}))
 			}
+			// fragmented TEXT whose last non-empty fragment stops inside a multi-byte character, ended by
+			// EMPTY fragments: the invalid message is reported, never a count beyond the caller's buffer
+			for _, n := range []int{1, 2, 100, 509, 510, 511, 512, 513, 1021, 1022, 1023, 4095, 4096} {
+				for _, tailb := range []string{"\xe2", "\xe2\x82", "\xf0\x9f\x98", "\xc3"} {
+					if !c.thor && (n+len(tailb))%2 == 0 && n > 2 && n < 509 {
+						continue
+					}
+					first := c.mkFrame(side, false, 1, 0)
+					first.payload = append(bytes.Repeat([]byte("a"), n), []byte(tailb)...)
+					empty := c.mkFrame(side, false, 0, 0)
+					last := c.mkFrame(side, true, 0, 0)
+					for _, e := range []string{fmt.Sprintf("rd%d", side), fmt.Sprintf("rx%d", side), fmt.Sprintf("rm%d", side)} {
+						fz(c, e, wireOf([]sframe{first, last}))
+						fz(c, e, wireOf([]sframe{first, empty, c.mkFrame(side, true, 9, 2), last}))
+					}
+				}
+			}
 		}
 	})
 	// C17: control messages collected by ReadMessage; caller slices under failing destinations
@@ -235,7 +349,26 @@ func init() {
 		fmt.Sscan(in[2], &v)
 		c17Z(c, in[0], n, v)
 	}
+	replayers["DXM"] = func(c *ctx, in []string) {
+		dxm(c, strings.ReplaceAll(in[0], "_", " "), strings.ReplaceAll(in[1], "_", " "))
+	}
 	wrap("C17", func(c *ctx) {
+		// the caller's Dialer (its Extensions, Protocols) is input only: a handshake whose answer carries other
+		// parameters than the offer must not write into it, and a second handshake offers the same again
+		for _, oa := range [][2]string{
+			{"permessage-deflate; client_max_window_bits=15", "permessage-deflate; server_no_context_takeover; client_max_window_bits=10"},
+			{"permessage-deflate; client_max_window_bits, foo; a=1", "foo; a=2; b=3"},
+			{"foo; a=1; b=2, bar", "bar; x=y, foo"},
+			{"permessage-deflate", "permessage-deflate"},
+		} {
+			dxm(c, oa[0], oa[1])
+		}
+		// helpers documented as copying: the result never lives in the caller's buffer, masked input or not
+		for _, name := range []string{"MaskFrame", "MaskFrameWith", "UnmaskFrame", "UnmaskFramePlain", "MaskFrameMasked"} {
+			for _, n := range []int{1, 8, 125, 1000} {
+				c02FB(c, name, n, 16)
+			}
+		}
 		for _, n := range []int{0, 1, 64, 65, 100, 125} {
 			for v := 0; v < 2; v++ {
 				c17Z(c, "readmessage", n, v)
@@ -752,4 +885,233 @@ func c19Pool(c *ctx, rounds int) {
 	}
 	runtime.GOMAXPROCS(old)
 	c.emit("C19P %d %s -> %d %d %s", rounds, b2s(raceEnabled), bad, c19Races()-races0, first)
+}
+
+// RDL: valid frames, then the HEADER of a frame announcing ln payload bytes (ln may be astronomically large),
+// then a few bytes; the Reader has MaxFrameSize set. Judged: the frames before are delivered as usual, the
+// oversized frame is refused with the size error (or the header error for an invalid length) and none of
+// the bytes behind its header is delivered.
+func runRDL(c *ctx, cfg rcfg, fs []sframe, h sframe, ln int64, trailing []byte, spec, bufs string) {
+	hdr := ws.Header{Fin: h.fin, Rsv: h.rsv, OpCode: ws.OpCode(h.op), Masked: h.masked, Mask: h.key, Length: ln}
+	var hb bytes.Buffer
+	ws.WriteHeader(&hb, hdr)
+	w := append(append(wireOf(fs), hb.Bytes()...), trailing...)
+	src := newChunkReader(w, spec, "eof")
+	evs, partial, err := driveReader(src, cfg, intsSpec(bufs), 2*len(w)+100)
+	h.payload = nil
+	c.emit("RDL %s %s %s %d %s %s %s -> %s %s %s", cfg.tok(), framesTok(fs), framesTok([]sframe{h}), ln, hx(trailing), spec, bufs,
+		eventsTok(evs), hx(partial), readErrClass(err))
+}
+
+// DXM: two handshakes with ONE Dialer value; the server answers the offered extensions with other parameters
+func dxm(c *ctx, offer, answer string) {
+	opts, _ := httphead.ParseOptions([]byte(offer), nil)
+	d := ws.Dialer{Extensions: opts, Protocols: []string{"chat"}}
+	enc := func(os []httphead.Option) string {
+		var b strings.Builder
+		httphead.WriteOptions(&b, os)
+		return strings.ReplaceAll(b.String(), " ", "")
+	}
+	before := enc(d.Extensions)
+	var offers []string
+	var results []string
+	for round := 0; round < 2; round++ {
+		d.NetDial = func(ctx context.Context, network, addr string) (net.Conn, error) {
+			cl, sv := net.Pipe()
+			go func() {
+				defer sv.Close()
+				br := bufio.NewReader(sv)
+				key, ext := "", ""
+				for {
+					line, err := br.ReadString('\n')
+					if err != nil {
+						return
+					}
+					line = strings.TrimRight(line, "\r\n")
+					if line == "" {
+						break
+					}
+					if k, v, ok := strings.Cut(line, ": "); ok {
+						switch strings.ToLower(k) {
+						case "sec-websocket-key":
+							key = v
+						case "sec-websocket-extensions":
+							ext = strings.ReplaceAll(v, " ", "")
+						}
+					}
+				}
+				offers = append(offers, ext)
+				acc := make([]byte, 28)
+				ws.VerifInitAcceptFromNonce(acc, []byte(key))
+				io.WriteString(sv, "HTTP/1.1 101 Switching Protocols\r\nUpgrade: websocket\r\nConnection: Upgrade\r\nSec-WebSocket-Accept: "+string(acc)+"\r\nSec-WebSocket-Extensions: "+answer+"\r\n\r\n")
+				io.Copy(ioutil.Discard, sv)
+			}()
+			return cl, nil
+		}
+		ctx, cancel := context.WithTimeout(context.Background(), 3*time.Second)
+		conn, br, hs, err := d.Dial(ctx, "ws://example.com/")
+		cancel()
+		if br != nil {
+			ws.PutReader(br)
+		}
+		if err != nil {
+			results = append(results, "err")
+			continue
+		}
+		got := enc(hs.Extensions)
+		// the caller may do what it likes with the returned handshake
+		for i := range hs.Extensions {
+			hs.Extensions[i] = httphead.Option{Name: []byte("scribbled")}
+		}
+		conn.Close()
+		results = append(results, got)
+	}
+	for len(offers) < 2 {
+		offers = append(offers, "?")
+	}
+	und := func(x string) string {
+		if x == "" {
+			return "-"
+		}
+		return x
+	}
+	c.emit("DXM %s %s -> %s %s %s %s %s %s", strings.ReplaceAll(offer, " ", "_"), strings.ReplaceAll(answer, " ", "_"),
+		und(before), und(enc(d.Extensions)), und(offers[0]), und(offers[1]), und(results[0]), und(results[1]))
+}
+
+func w18x(c *ctx, side byte, how string, n int) {
+	ms := &wsflate.MessageState{}
+	ms.SetCompressed(true)
+	xs := []wsutil.SendExtension{ms}
+	run := func(w *wsutil.Writer, d *recWriter) (out string) {
+		out = "panic"
+		defer func() { recover() }()
+		w.SetExtensions(xs...)
+		k, e1 := w.Write(patBytes(n, 5))
+		e2 := w.Flush()
+		return fmt.Sprintf("%d.%s.%s.%s", k, werrClass(e1), werrClass(e2), hx(d.all()))
+	}
+	d0 := newRecWriter()
+	var a *wsutil.Writer
+	if how == "pool" {
+		a = wsutil.GetWriter(d0, ws.State(side), ws.OpText, 128)
+	} else {
+		a = wsutil.NewWriterSize(d0, ws.State(side), ws.OpText, 128)
+	}
+	a.SetExtensions(xs...)
+	a.Write([]byte("first"))
+	a.Flush()
+	dA := newRecWriter()
+	if how == "pool" {
+		wsutil.PutWriter(a)
+		a = wsutil.GetWriter(dA, ws.State(side), ws.OpText, 128)
+	} else {
+		a.Reset(dA, ws.State(side), ws.OpText)
+	}
+	intact := xs[0] != nil
+	ra := "-"
+	if intact {
+		ra = run(a, dA)
+	}
+	dB := newRecWriter()
+	rb := run(wsutil.NewWriterSize(dB, ws.State(side), ws.OpText, 128), dB)
+	if side&2 != 0 { // client side: random masks, compare the unmasked frames
+		ra, rb = unmaskLog(ra), unmaskLog(rb)
+	}
+	c.emit("W18X %d %s %d -> %d %s %s", side, how, n, b2i(intact), ra, rb)
+}
+
+// unmaskLog replaces the hex wire bytes at the end of a "k.e1.e2.hex" token by header fields + unmasked payloads
+func unmaskLog(tok string) string {
+	i := strings.LastIndex(tok, ".")
+	if i < 0 {
+		return tok
+	}
+	data := unhx(tok[i+1:])
+	var parts []string
+	r := bytes.NewReader(data)
+	for r.Len() > 0 {
+		f, err := ws.ReadFrame(r)
+		if err != nil {
+			parts = append(parts, "bad")
+			break
+		}
+		if f.Header.Masked {
+			ws.Cipher(f.Payload, f.Header.Mask, 0)
+		}
+		parts = append(parts, fmt.Sprintf("%v/%d/%d/%v/%s", f.Header.Fin, f.Header.Rsv, f.Header.OpCode, f.Header.Masked, hx(f.Payload)))
+	}
+	return tok[:i+1] + strings.Join(parts, "+")
+}
+
+// C19W: one session sends a message from its own buffer (capacity exactly a pool size class when n is a power of
+// two) with the one-shot helpers; afterwards OTHER sessions of the same process use the byte pool heavily (client
+// writes, control handling of the same size classes). The first session's buffer must still hold its bytes.
+func c19W(c *ctx, role string, n int) {
+	races0 := c19Races()
+	mine := make([]byte, n)
+	for i := range mine {
+		mine[i] = byte('A' + i%26)
+	}
+	saved := append([]byte(nil), mine...)
+	d := newRecWriter()
+	var err error
+	if role == "server" {
+		err = wsutil.WriteServerMessage(d, ws.OpBinary, mine)
+	} else {
+		err = wsutil.WriteClientMessage(d, ws.OpBinary, mine)
+	}
+	// other sessions
+	var wg sync.WaitGroup
+	for g := 0; g < 4; g++ {
+		wg.Add(1)
+		go func(g int) {
+			defer wg.Done()
+			for k := 0; k < 8; k++ {
+				other := bytes.Repeat([]byte{byte(0xE0 + g)}, n-n/3)
+				wsutil.WriteClientMessage(ioutil.Discard, ws.OpText, other)
+				wsutil.WriteClientMessage(ioutil.Discard, ws.OpText, bytes.Repeat([]byte{0xEE}, n))
+			}
+		}(g)
+	}
+	for k := 0; k < 8; k++ {
+		wsutil.WriteClientMessage(ioutil.Discard, ws.OpText, bytes.Repeat([]byte{0xDD}, n))
+	}
+	wg.Wait()
+	c.emit("C19W %s %d %s -> %s %d %d", role, n, b2s(raceEnabled), werrClass(err), b2i(bytes.Equal(mine, saved)), c19Races()-races0)
+}
+
+// C19G: package-level precompiled frames (ws.CompiledPing, CompiledPong, CompiledClose...) are shared by every
+// session: after client-side and server-side sessions have answered empty and non-empty pings and closes, the
+// globals still hold their bytes and a server-side empty-ping reply is still the unmasked empty pong.
+func c19G(c *ctx) {
+	races0 := c19Races()
+	snap := func() string {
+		return hx(ws.CompiledPing) + "." + hx(ws.CompiledPong) + "." + hx(ws.CompiledClose) + "." + hx(ws.CompiledCloseNormalClosure) + "." + hx(ws.CompiledCloseProtocolError)
+	}
+	before := snap()
+	reply := func(state ws.State, op ws.OpCode, payload []byte) []byte {
+		d := newRecWriter()
+		h := ws.Header{Fin: true, OpCode: op, Length: int64(len(payload))}
+		ch := wsutil.ControlHandler{Src: bytes.NewReader(payload), Dst: d, State: state}
+		ch.Handle(h)
+		return d.all()
+	}
+	var wg sync.WaitGroup
+	for g := 0; g < 4; g++ {
+		wg.Add(1)
+		go func(g int) {
+			defer wg.Done()
+			st := []ws.State{ws.StateClientSide, ws.StateServerSide}[g%2]
+			for k := 0; k < 4; k++ {
+				reply(st, ws.OpPing, nil)
+				reply(st, ws.OpPing, []byte("abc"))
+				reply(st, ws.OpClose, nil)
+			}
+		}(g)
+	}
+	wg.Wait()
+	srv := reply(ws.StateServerSide, ws.OpPing, nil)
+	cli := reply(ws.StateClientSide, ws.OpPing, nil)
+	c.emit("C19G %s -> %d %s %s %d", b2s(raceEnabled), b2i(snap() == before), hx(srv), hx(cli), c19Races()-races0)
 }
